@@ -18,6 +18,7 @@
 package validator
 
 import (
+	"io"
 	"net/http"
 
 	"fmt"
@@ -152,7 +153,14 @@ func (v *Validator) Handle(ctx *context.Context) string {
 		}
 	}
 	if v.signer != nil {
-		if err := v.signer.Verify(req.Std()); err != nil {
+		stdr := req.Std()
+		if !req.IsStream() {
+			// the server has already drained stdr.Body into the payload
+			r2 := *stdr
+			r2.Body = io.NopCloser(req.GetPayload())
+			stdr = &r2
+		}
+		if err := v.signer.Verify(stdr); err != nil {
 			prepareErrorResponse(http.StatusUnauthorized, "signature validator: ", err)
 			return resultInvalid
 		}
